@@ -1,4 +1,113 @@
-(** C03 -- placeholder while the pipeline is being built; replaced by the property theorems. *)
-From TLV Require Import Tl2.Tl2Model.
-Example C03_placeholder : wf2 [] (mkX (fun _ => false) (fun _ _ => false) (fun _ => 0%N)) = true.
-Proof. reflexivity. Qed.
+(** C03 -- TL2 binary round trip of generated Go code.  Property theorems only.
+    The model: coq/theories/Tl2/Tl2Model.v ([enc2] = generated CalculateLayout + InternalWriteTL2,
+    [dec2] = generated InternalReadTL2, over the schema IR dumped from the real kernel on every
+    run; values = the Go object state: field values plus the tl2mask presence bits). *)
+From TLV Require Import Prim.PrimModel Tl1.Tl1Model Tl1.Tl1Proofs Tl2.Tl2Model Tl2.Tl2Blocks Tl2.Tl2Proofs.
+Open Scope N_scope.
+
+(** For every well-formed TL2-enabled schema, every type, every object state [v] the writer
+    accepts ([enc2] is a total function on Go objects; [None] only for terms that are not objects
+    of the type or whose size exceeds MaxInt) and whatever follows the written bytes: reading
+    succeeds, consumes exactly the written bytes, and yields the normal form of [v] ([norm2]: a
+    non-optional float/double field holding -0.0 comes back as +0.0, nothing else changes).
+    No bound on schema size, value size or depth. *)
+Theorem C03_roundtrip : forall s x, wf2 s x = true ->
+  forall v t b fuel rest, enc2 s x t false v = Some b -> (vdepth v <= fuel)%nat ->
+    dec2 fuel s x t (b ++ rest) = Some (Ok (norm2 s x t false v, rest)).
+Proof. exact enc2_dec2. Qed.
+Print Assumptions C03_roundtrip.
+
+(** ... and writing what was read yields identical bytes (in every position, optional or not) *)
+Theorem C03_rewrite_identical : forall s x, wf2 s x = true ->
+  forall v t ze b, enc2 s x t ze v = Some b -> enc2 s x t ze (norm2 s x t ze v) = Some b.
+Proof. intros s x Hwf v. exact (enc2_norm_all s x Hwf v). Qed.
+Print Assumptions C03_rewrite_identical.
+
+(** the two together, in the words of the property *)
+Theorem C03_write_read_write : forall s x, wf2 s x = true ->
+  forall v t b fuel rest, enc2 s x t false v = Some b -> (vdepth v <= fuel)%nat ->
+    exists v', dec2 fuel s x t (b ++ rest) = Some (Ok (v', rest)) /\ enc2 s x t false v' = Some b.
+Proof.
+  intros s x Hwf v t b fuel rest H Hd. exists (norm2 s x t false v). split.
+  - exact (enc2_dec2 s x Hwf v t b fuel rest H Hd).
+  - exact (enc2_norm_all s x Hwf v t false b H).
+Qed.
+Print Assumptions C03_write_read_write.
+
+(** a written object occupies at least one byte (a reader never loops on a vector of them) *)
+Theorem C03_written_nonempty : forall s x v t b, enc2 s x t false v = Some b -> b <> [].
+Proof. exact enc2_false_nonempty. Qed.
+Print Assumptions C03_written_nonempty.
+
+(** schemas without float/double: the reader returns exactly the value that was written *)
+Theorem C03_exact_without_floats : forall s x, wf2 s x = true -> no_float s = true ->
+  forall v t b fuel rest, enc2 s x t false v = Some b -> (vdepth v <= fuel)%nat ->
+    dec2 fuel s x t (b ++ rest) = Some (Ok (v, rest)).
+Proof.
+  intros s x Hwf Hnf v t b fuel rest H Hd.
+  pose proof (enc2_dec2 s x Hwf v t b fuel rest H Hd) as H1.
+  now rewrite (norm2_no_float s x Hnf v t false) in H1.
+Qed.
+Print Assumptions C03_exact_without_floats.
+
+(** The full statement ("for every accepted schema writing never fails") is FALSE: the kernel
+    accepts [l.cons head:int tail:l.List = l.List; l.nil = l.List; l.box x:l.List = l.Box], whose
+    default object is infinite (the first variant contains the union again) -- [wf2] excludes
+    it, and the generated writer (EnsureRecursive) does not terminate on a freshly created / Reset
+    l.box: fatal stack overflow (replayed by the check's probe unit). *)
+Definition reclist_schema : schema :=
+  [ TPrim PInt;                                                         (* 0 *)
+    TUnion [2%nat; 3%nat];                                              (* 1: l.List *)
+    TStruct 1 [mkField 0 true None []; mkField 1 false None []];        (* 2: l.cons head tail *)
+    TStruct 2 [];                                                       (* 3: l.nil *)
+    TStruct 3 [mkField 1 false None []] ].                              (* 4: l.box x *)
+Definition reclist_x : tl2x := mkX (fun _ => false) (fun _ _ => false) (fun t => if Nat.eqb t 3 then 1 else 0).
+
+Theorem C03_refuted_infinite_default :
+  wf_schema reclist_schema = true /\ wf2 reclist_schema reclist_x = false /\
+  forall fuel, default2 fuel reclist_schema 1 = None /\ default2 fuel reclist_schema 4 = None.
+Proof.
+  split; [vm_compute; reflexivity|]. split; [vm_compute; reflexivity|].
+  assert (H1 : forall fuel, default2 fuel reclist_schema 1 = None).
+  { induction fuel as [|f IH]; [reflexivity|].
+    cbn [default2 nth_error reclist_schema default_fields masked f_mask f_ty bind_opt]. rewrite IH.
+    destruct (default2 f reclist_schema 0); reflexivity. }
+  intros fuel. split; [apply H1|].
+  destruct fuel as [|f]; [reflexivity|].
+  cbn [default2 nth_error reclist_schema default_fields masked f_mask f_ty bind_opt]. now rewrite H1.
+Qed.
+Print Assumptions C03_refuted_infinite_default.
+
+(** Non-vacuity: field masks (a bit field, a masked int), a union, a fixed tuple, a dictionary,
+    an alias, more than 7 fields (second presence block), trailing-zero trimming. *)
+Definition ex_schema : schema :=
+  [ TPrim PNat;                                                        (* 0 *)
+    TPrim PString;                                                     (* 1 *)
+    TStruct 100 [];                                                    (* 2: true *)
+    TArray (ATupleFixed 2) (mkField 0 true None []);                   (* 3 *)
+    TStruct 21 []; TStruct 22 [mkField 1 true None []];                (* 4, 5: variants *)
+    TUnion [4%nat; 5%nat];                                             (* 6 *)
+    TStruct 31 [mkField 1 true None []; mkField 0 true None []];       (* 7: key:string value:# *)
+    TDict PString (mkField 7 true None []);                            (* 8 *)
+    TStruct 40 [mkField 8 true None []];                               (* 9: alias of the dictionary *)
+    TPrim PFloat;                                                      (* 10 *)
+    TStruct 41 [mkField 0 true None []; mkField 2 true (Some (NField 0, 0)) []; mkField 0 true (Some (NField 0, 1)) [];
+                mkField 6 false None []; mkField 3 true None []; mkField 9 true None []; mkField 10 true None [];
+                mkField 1 true None []; mkField 0 true None []; mkField 1 true None []] ].   (* 11 *)
+Definition ex_x : tl2x :=
+  mkX (fun t => Nat.eqb t 9) (fun t i => Nat.eqb t 11 && Nat.eqb i 1) (fun t => if Nat.eqb t 5 then 1 else 0).
+Definition ex_value : value :=
+  VStruct [Some (VNum 3); Some (VStruct []); Some (VNum 7); Some (VUnion 1 [Some (VStr [104; 105])]);
+           Some (VArr [VNum 1; VNum 0]);
+           Some (VStruct [Some (VArr [VStruct [Some (VStr [97]); Some (VNum 1)]; VStruct [Some (VStr [98]); Some (VNum 0)]])]);
+           Some (VNum 2147483648); Some (VStr []); Some (VNum 9); Some (VStr [])].
+
+Example C03_ex_wf : wf2 ex_schema ex_x = true.
+Proof. vm_compute. reflexivity. Qed.
+Example C03_ex_roundtrip :
+  match enc2 ex_schema ex_x 11 false ex_value with
+  | Some b => dec2 20 ex_schema ex_x 11 (b ++ [7; 7]) = Some (Ok (norm2 ex_schema ex_x 11 false ex_value, [7; 7]))
+              /\ norm2 ex_schema ex_x 11 false ex_value <> ex_value /\ lenN b = 45
+  | None => False
+  end.
+Proof. vm_compute. repeat split; try reflexivity. intros E; inversion E. Qed.
